@@ -108,8 +108,16 @@ def build(cx, prop=None):
     lock = open(os.path.join(cx.cache, 'lock'), 'w')
     fcntl.flock(lock, fcntl.LOCK_EX)
     try:
-        shutil.copyfile('/repo/go.sum', os.path.join(cx.harness, 'go.sum'))
-        r = run(['go', 'build', '-tags', 'verif', '-o', cx.vh + '.new', './vh/'], cwd=cx.harness, timeout=900)
+        repo = os.environ.get('VERIF_REPO', '/repo')
+        shutil.copyfile(os.path.join(repo, 'go.sum'), os.path.join(cx.harness, 'go.sum'))
+        modargs = []
+        if repo != '/repo':
+            # build against another checkout of the code under test (seed testing in a private worktree)
+            alt = os.path.join(cx.cache, 'alt.mod')
+            open(alt, 'w').write(open(os.path.join(cx.harness, 'go.mod')).read().replace('=> /repo', '=> ' + repo))
+            shutil.copyfile(os.path.join(repo, 'go.sum'), os.path.join(cx.cache, 'alt.sum'))
+            modargs = ['-modfile=' + alt]
+        r = run(['go', 'build'] + modargs + ['-tags', 'verif', '-o', cx.vh + '.new', './vh/'], cwd=cx.harness, timeout=900)
         res['harness_log'] = r.stdout
         if r.returncode != 0:
             return res
